@@ -34,8 +34,11 @@ pub struct Env {
     /// data profile that has a dictionary).
     pub dict_spellings: Vec<String>,
     /// Latin words with many candidates (long lists), measured lazily by generators.
+    /// All emoticons / English emoji names / Bengali emoji names of the emojicon tables
+    /// (extracted from the pinned crate's sources into sim/data/), common ones first.
     pub emoticons: Vec<&'static str>,
     pub emoji_names: Vec<&'static str>,
+    pub bn_emoji_names: Vec<&'static str>,
 }
 
 fn layout_key_name(vc_name: &str) -> Option<(String, bool)> {
@@ -283,14 +286,17 @@ impl Env {
             autocorrect_words,
             autocorrect_keys,
             dict_spellings,
-            emoticons: vec![
-                ":)", ";)", ":(", ":D", ":P", "<3", ":'(", ":|", ":o", "B)", ":*", "-_-", ">:(",
-                ":-)", "^_^", "</3", ":3", "o.O",
-            ],
-            emoji_names: vec![
-                "smile", "heart", "fire", "number", "a", "help", "star", "sun", "moon", "cat",
-                "dog", "tree", "book", "car", "rose", "ok", "b", "sos", "cool", "new",
-            ],
+            emoticons: {
+                let mut v = vec![":)", ";)", ":(", ":D", ":P", "<3", ":'(", ":|", ":o", "B)", ":*", "-_-", ">:(", ":-)", "^_^", "</3", ":3", "o.O"];
+                v.extend(include_str!("../data/emoticons.txt").lines().filter(|l| !l.is_empty()));
+                v
+            },
+            emoji_names: {
+                let mut v = vec!["smile", "heart", "fire", "number", "a", "help", "star", "sun", "moon", "cat", "dog", "tree", "book", "car", "rose", "ok", "b", "sos", "cool", "new"];
+                v.extend(include_str!("../data/emoji_names.txt").lines().filter(|l| !l.is_empty()));
+                v
+            },
+            bn_emoji_names: include_str!("../data/bn_emoji_names.txt").lines().filter(|l| !l.is_empty()).collect(),
         })
     }
 
